@@ -23,7 +23,10 @@ def dumpWorld (w : World) : String :=
   let es := w.exps.map (fun e =>
     s!"E {e.key.ns} {e.key.name} {b01 e.deleted} {b01 e.fin} {e.par} {optIntStr e.maxT} {optIntStr e.maxF} " ++
     s!"{condsStr ctName e.st.conds} {optNatStr e.st.completion} " ++
-    s!"{e.st.trials}/{"/".intercalate (e.st.counts.map toString)} {e.st.opt.getD "-"}")
+    s!"{e.st.trials}/{"/".intercalate (e.st.counts.map toString)} " ++
+    (match e.st.opt with
+     | none => "-"
+     | some n => n ++ "@" ++ ",".intercalate (e.st.optObs.map (fun (m : Metrics.Metric) => s!"{hexOf m.name}:{hexOf m.min}:{hexOf m.max}:{hexOf m.latest}"))))
   let ss := w.sugs.map (fun s =>
     s!"S {s.key.ns} {s.key.name} {s.requests} {s.st.count} {dashJoin s.st.names} {condsStr sctName s.st.conds}")
   let ts := w.trials.map (fun t =>
@@ -89,6 +92,7 @@ def pSimCmd : P SimCmd := do
   | "earlystop" => do let k ← pKey2; pure (.op (.earlyStop k))
   | "deployReady" => do let k ← pKey2; pure (.op (.deployReady k))
   | "editMax" => do let k ← pKey2; let n ← P.int; pure (.op (.editMax k n))
+  | "jobGone" => do let k ← pKey2; pure (.op (.jobGone k))
   | "quiesce-begin" => do let _ ← pKey2; pure (.op .noop)
   | "quiesce-end" => do let _ ← pKey2; pure (.op .noop)
   | _ => failure
@@ -144,7 +148,7 @@ def parseItem (cfgs : List ExpInit) (w : World) (it : List String) : Option Worl
     let parI ← par.toInt?
     let st : ExpSt :=
       { conds := cs, completion := compl.toNat?, trials := nums.headD 0, counts := nums.drop 1,
-        opt := if opt == "-" then none else some opt }
+        opt := if opt == "-" then none else some ((opt.splitOn "@").headD opt) }
     let e : ExpO :=
       { key, rv := 0, deleted := del == "1", fin := fin == "1", par := parI, maxT := optInt max, maxF := optInt mf,
         cfg := cfgFor key, st := st }
